@@ -81,6 +81,14 @@ func stdinOf(cfg string, tag int) string {
 		return fmt.Sprintf("x y\n4 2\nt%d 9\n", tag)
 	case "c7":
 		return fmt.Sprintf("x y\n6 3\nt%d 9\n", tag)
+	case "c8":
+		return fmt.Sprintf("x y\n8 1\nt%d 9\n", tag)
+	case "c9":
+		return fmt.Sprintf("x y\n9 1\nt%d 9\n", tag)
+	case "c10":
+		return fmt.Sprintf("x y\n1 1\nt%d 9\n", tag)
+	case "c11":
+		return fmt.Sprintf("x y\n1 2\nt%d 9\n", tag)
 	}
 	panic("c14: unknown configuration " + cfg)
 }
@@ -92,11 +100,31 @@ func stdinOf(cfg string, tag int) string {
 // ExecuteContext with a context whose deadline passes as soon as the call has
 // returned.  Kinds that cancel their own call get a cancellable context.
 func apiOf(kind, cfg string) string {
-	api := map[string]string{"c0": "exec", "c1": "ctx", "c2": "exec", "c3": "ctxdl", "c4": "ctxbg", "c5": "exec", "c6": "exec", "c7": "exec"}[cfg]
-	if (kind == "cancel" || kind == "exit_endcancel" || kind == "rg_cancel") && (api == "exec" || api == "ctxbg") {
+	api := map[string]string{"c0": "exec", "c1": "ctx", "c2": "exec", "c3": "ctxdl", "c4": "ctxbg", "c5": "exec", "c6": "exec", "c7": "exec",
+		"c8": "exec", "c9": "exec", "c10": "exec", "c11": "exec"}[cfg]
+	if (kind == "cancel" || kind == "exit_endcancel" || kind == "rg_cancel" || kind == "dp_cancel") && (api == "exec" || api == "ctxbg") {
 		return "ctx"
 	}
 	return api
+}
+
+// callLimit is the number of nested user-function calls a NEW interpreter allows
+// (CallLimit in spec/Reuse.tla).
+const callLimit = 1000
+
+// depthOf: how deep the kinds dp_* nest calls in this configuration (Vars depth).
+func depthOf(cfg string) int {
+	switch cfg {
+	case "c8":
+		return 400
+	case "c9":
+		return 700
+	case "c10":
+		return callLimit
+	case "c11":
+		return callLimit + 1
+	}
+	return 3
 }
 
 // deadlineCtx is a context with a deadline that passes when the harness says
@@ -247,7 +275,7 @@ func (s *session) run(kind, cfg string, tag int, w *workDir) (res Result) {
 		Error:   &errb,
 		Environ: []string{},
 		Funcs:   s.funcs,
-		Vars:    []string{"mode", kind, "wf", w.wf, "rf", w.rf},
+		Vars:    []string{"mode", kind, "wf", w.wf, "rf", w.rf, "depth", strconv.Itoa(depthOf(cfg))},
 	}
 	switch cfg {
 	case "c1":
@@ -373,6 +401,10 @@ func group(key string) string {
 		return "fields-array"
 	case "chars":
 		return "chars-flag"
+	case "pf", "fc":
+		return "format"
+	case "deep":
+		return "calldepth"
 	case "INPUTMODE":
 		return "inputmode"
 	case "OUTPUTMODE", "", "pl":
@@ -480,19 +512,26 @@ func drawSymbol(val string) string {
 // diff compares a run's real output with the predicted chunk list.
 func diff(exp []Chunk, got []byte) *mismatch {
 	off := 0
+	prev := ""
 	for _, e := range exp {
-		if e.K == "" { // raw text
+		if e.K == "" { // raw text: the unkeyed line that follows the empty chunk "pl" / "pf" / "fc"
 			w := e.V.Bytes()
 			if !bytes.HasPrefix(got[off:], w) {
 				end := off + len(w)
 				if end > len(got) {
 					end = len(got)
 				}
-				return &mismatch{group(e.K), "text", string(w), string(got[off:end])}
+				g := group(e.K)
+				if prev == "pf" || prev == "fc" {
+					g = group(prev)
+				}
+				return &mismatch{g, "text", fmt.Sprintf("%q", w), fmt.Sprintf("%q", got[off:end])}
 			}
 			off += len(w)
+			prev = ""
 			continue
 		}
+		prev = e.K
 		c, no, ok := parseKeyed(got, off)
 		if !ok || c.K != e.K {
 			g := group(e.K)
@@ -552,11 +591,15 @@ func randClass(vr string) string {
 }
 
 var cfgNote = map[string]string{
-	"c1": `; Vars FS=":"; OutputMode tsv; Args [inf]`,
-	"c2": "; InputMode csv header",
-	"c5": `; Argv0 "prog"; Args [g=G5 o2=B o3=C]; Environ [home=hh lang=c]`,
-	"c6": "; Args [o9=X]; Environ [user=bob]; Chars",
-	"c7": "; NoExec NoFileWrites NoFileReads NoArgVars",
+	"c1":  `; Vars FS=":"; OutputMode tsv; Args [inf]`,
+	"c2":  "; InputMode csv header",
+	"c5":  `; Argv0 "prog"; Args [g=G5 o2=B o3=C]; Environ [home=hh lang=c]`,
+	"c6":  "; Args [o9=X]; Environ [user=bob]; Chars",
+	"c7":  "; NoExec NoFileWrites NoFileReads NoArgVars",
+	"c8":  "; Vars depth=400",
+	"c9":  "; Vars depth=700",
+	"c10": "; Vars depth=1000",
+	"c11": "; Vars depth=1001",
 }
 
 func describe(c *Case) string {
@@ -628,10 +671,20 @@ func replayOnce(c *Case) hx.Outcome {
 			return hx.Fail(pfx+"/panic/"+r.Kind, fmt.Sprintf("run %d (%s,%s) panicked: %v", i+1, r.Kind, r.Cfg, res.Panic), nil, fmt.Sprint(res.Panic), prog)
 		}
 		if i == last {
-			if m := diff(c.Out, res.Out); m != nil {
+			m := diff(c.Out, res.Out)
+			if m != nil && m.what == "sequence" && m.got == "<end of output>" && res.Err != r.Err && m.group != "calldepth" &&
+				res.Err != "canceled" && res.Err != "deadline" {
+				// the output just stops where the run failed although it should not have: the error class names it (below)
+				m = nil
+			}
+			if m != nil {
 				dir := "carried-over"
 				if m.group == "globals" || m.group == "specials" || m.group == "rand" {
 					dir = "wrong-value"
+				}
+				if m.group == "format" {
+					// printf / sprintf gave what another Config (Chars) or CONVFMT would give
+					dir = "setting-of-earlier-run"
 				}
 				if res.Err != r.Err && (res.Err == "canceled" || res.Err == "deadline") {
 					// the output stops short because the run was ended by a context that is not its own
